@@ -197,7 +197,13 @@ def validateSearches (id : String) (gI : Graph) (sups : List (List Nat)) (evs : 
         | some l => if w ≥ l then return some s!"diff {id} phase {k} search-from {e.source} returns {w} not below the limit {l}"
         | none => pure ()
       | some w, none => return some s!"diff {id} phase {k} search-from {e.source} returns {w} but the target is unreachable"
-      | none, _ => pure ()     -- not found: beyond the limit, unreachable, or a walk that repeats an edge (discarded)
+      | none, none => pure ()                        -- not found: unreachable
+      | none, some dist =>
+        -- not found although reachable: legitimate when the distance is not below the limit, or when a shortest
+        -- walk repeats an edge of g ("duplicate edge, discard cycle")
+        let below := match e.limit with | some l => decide (dist < l) | none => true
+        if below && !(sgShortestMayRepeat gI (if e.emptySigned then [] else S) e.hidden a b dist) then
+          return some s!"diff {id} phase {k} search-from {e.source} returns nothing although the target is at distance {dist} below the limit and no shortest walk repeats an edge"
     k := k + 1
   return none
 
